@@ -33,6 +33,11 @@ var mustC16 = []string{"rows==model", "history-encode-ok", "readback-ok", "encod
 
 func intMode(c *sym.Config) { c.IntMode = true }
 
+func c05cfg(c *sym.Config) {
+	c.AllocCeiling = 128*1024*1024 + 64
+	c.MaxConcretize = 6
+}
+
 var props = map[string]*propDef{
 	"C14": {
 		ID: "C14", Level: "model_checking", Rule: ruleDefault,
@@ -171,6 +176,20 @@ var props = map[string]*propDef{
 			{Name: "proto.VerifC18Bind", Quick: map[string]int{"maxcols": 1}, Thorough: map[string]int{"maxcols": 2}, Optional: []string{"compatible-block-rejected"}},
 			{Name: "proto.VerifC18Bind", OnlyTier: "quick", Quick: map[string]int{"maxcols": 2, "srvmax": 4, "tgtmax": 4}, Optional: []string{"compatible-block-rejected", "enum-adopted", "precision-adopted"}},
 			{Name: "proto.VerifC18Names"},
+		},
+	},
+	"C05": {
+		ID: "C05", Level: "model_checking", Rule: ruleDefault,
+		Assumptions: append([]string{
+			"city.CH128 is an uninterpreted function per input length with a no-collision assumption among the applications compared on one path (equal checksums imply equal input)",
+			"LZ4/LZ4HC/ZSTD are an opaque codec pair with decompress(compress(x)) = x; compression levels and real bit streams are invisible; bytes no compressor produced may decode to anything or fail",
+			"allocation ceiling for this property: the documented 128 MiB frame limits (+ header)",
+		}, baseAssumptions...),
+		Harnesses: []harnessDef{
+			{Name: "compress.VerifC05RoundTrip", Quick: map[string]int{"maxlen": 3, "maxread": 3}, Thorough: map[string]int{"maxlen": 6, "maxread": 5}},
+			{Name: "compress.VerifC05Header", Cfg: c05cfg, Quick: map[string]int{"tail": 2}, Thorough: map[string]int{"tail": 6}},
+			{Name: "compress.VerifC05Corrupt", Quick: map[string]int{"maxlen": 2}, Thorough: map[string]int{"maxlen": 6}},
+			{Name: "compress.VerifC05Truncated", Quick: map[string]int{"maxlen": 2}, Thorough: map[string]int{"maxlen": 5}},
 		},
 	},
 }
